@@ -21,6 +21,8 @@ Clause ids (`what`), `<Src>To<Tgt>` one of the 16 converter names (OsuToQua ... 
   <Src>To<Tgt>.declared_key_count   ONE id for one root cause: files whose top column holds no object (the file still
                                 declares its key count: CircleSize / Mode / chart type / OJN = 7) report this clause,
                                 whatever base clause broke; not generated for BMS sources (a BMS text declares none)
+  <Src>To<Tgt>.sv_before_first_tempo_point   ONE id for one root cause: start_offset (below) on a file with a scroll-velocity point
+                                before its first tempo point, when the same file without those points has no start_offset failure
   <Src>To<Tgt>.start_offset     ONE id for one root cause: the three clauses above fail, but hold again after moving
                                 the whole written timeline by one constant (the detail gives it); only then, and
                                 instead of them
@@ -72,6 +74,22 @@ Input dimensions of a case besides the score (all optional in the JSON `case`; a
                    b: a})` on the note lists | stack: the same on `chart.stack().column` -; expected: the source's objects
                    with these two columns exchanged (the set of used columns, hence any inferred key count, is unchanged)
   move_right_by    also NEGATIVE (-1, -2: OsuToBMS / QuaToBMS / O2JToBMS) on files whose lowest columns hold no object
+Dimensions 14 / 16 / 17 / 18 (all optional keys; every one is a function of the case drawn before, see `_add_dims`):
+  svs              osu / Quaver (17): further scroll-velocity points [[beat, multiplier]] - BEFORE the first tempo point (beat < 0), ON
+                   it (beat 0), on a tempo change, after the last object and tempo point; osu: the [TimingPoints] lines then in time
+                   order unless tps_shuffled.  Scroll velocities are no part of what is compared: the written timeline must be the
+                   source's whatever kind of object comes first in the file / in time
+  early_samples    osu (17): storyboard sample events before the first tempo point
+  rich             (14) every column of every record non-default and different from its siblings: osu y, hit sound, the four
+                   hit-sample numbers and the file name of every object, sample set / index / volume of every timing point;
+                   Quaver HitSound / EditorLayer on every record; .sm every header tag present with its own text incl.
+                   #BGCHANGES / #FGCHANGES / #DISPLAYBPM; BMS #GENRE / #SUBTITLE / #STAGEFILE ... given
+  bgm              BMS source (17): the first data line is a BGM sample line (channel 01) on the first measure line, another one
+                   two measures after the last line
+  lnobj            BMS source (16): absent = `#LNOBJ ZZ` as before; null = NO #LNOBJ header (charts without holds) while id ZZ
+                   is an ordinary sample of some hits; another id (ZY / 02 / AA) ends the long notes while ZZ is an ordinary sample
+  fine             (18) a part of the objects moved to whole beat + k/q, q from 32, 64, 96, 5, 7, 9 (the default 1..96 snap grid, not
+                   the 1/48-beat grid; .sm sources only where every measure still fits 192 rows)
 """
 from __future__ import annotations
 
@@ -295,7 +313,76 @@ def gen_case(rng, src, tgt):
     via = gen_via(rng, case)
     if via:
         case["via"] = via
+    _add_dims(case)
     return case
+
+
+FINE_Q = (32, 64, 96, 5, 7, 9)
+SV_MULT = (0.5, 2.0, 1.25, 0.75)
+
+
+def _add_dims(case):
+    """Dimensions 14 / 16 / 17 / 18 on top of the case; every choice is a function of the case drawn from rep.rng (a stream
+    of its own seeded with the case), so the cases of earlier versions of the generator stay what they were."""
+    import json
+
+    sub = random.Random("dims14-18 " + json.dumps(case, sort_keys=True))
+    src, score = case["src"], case["score"]
+    end = max([Fraction(4 * score["tempo"][-1][0])] + [Fraction(o[1]) + Fraction(o[2]) for ch in score["charts"] for o in ch["objs"]])
+    if src in ("osu", "qua") and sub.random() < 0.35:
+        # 17: the first object of the file / the timeline is a scroll-velocity point, not a tempo point
+        pool = ["-3/2", "-1/48", "-16", "0", str(Fraction(4 * score["tempo"][-1][0])), str(end + 3)]
+        first = sub.choice(("-3/2", "-1/48", "-16", "-5/4", "0"))
+        more = sub.sample(pool, sub.randrange(0, 3))
+        case["svs"] = [[b, sub.choice(SV_MULT)] for b in dict.fromkeys([first] + more)]
+        if src == "osu" and sub.random() < 0.4:
+            case["early_samples"] = sub.choice((1, 2))
+    if sub.random() < 0.2:
+        case["rich"] = True
+    if src == "bms" and sub.random() < 0.3:
+        holds = any(Fraction(o[2]) for ch in score["charts"] for o in ch["objs"])
+        case["lnobj"] = sub.choice(("ZY", "02", "AA")) if holds or sub.random() < 0.3 else None
+    if src == "bms" and sub.random() < 0.3:
+        case["bgm"] = True
+    if sub.random() < 0.2:
+        _fine_positions(sub, case)
+
+
+def _fine_positions(sub, case):
+    """18: objects moved (inside their beat, keeping MIN_GAP to the neighbours of their column) to whole beat + k/q, q from FINE_Q."""
+    import copy
+
+    score = case["score"]
+    charts = copy.deepcopy(score["charts"])
+    moved = 0
+    for ch in charts:
+        by_col = {}
+        for o in ch["objs"]:
+            by_col.setdefault(o[0], []).append(o)
+        for col in by_col.values():
+            col.sort(key=lambda o: Fraction(o[1]))
+            for i, o in enumerate(col):
+                if sub.random() < 0.4:
+                    continue
+                p, ln = Fraction(o[1]), Fraction(o[2])
+                q = sub.choice(FINE_Q)
+                p2 = p.__floor__() + Fraction(sub.randrange(1, q), q)
+                lo = Fraction(col[i - 1][1]) + Fraction(col[i - 1][2]) + MIN_GAP if i else Fraction(0)
+                hi = Fraction(col[i + 1][1]) - MIN_GAP if i + 1 < len(col) else None
+                if p2 >= lo and (hi is None or p2 + ln <= hi):
+                    o[1] = str(p2)
+                    moved += 1
+    if case["src"] == "sm":
+        for ch in charts:
+            for by_pos in _measures_of(ch, "123").values():
+                R = 4
+                for pos in by_pos:
+                    R = _lcm(R, pos.denominator)
+                if R > 192:
+                    return  # an .sm measure has at most 192 rows
+    if moved:
+        score["charts"] = charts
+        case["fine"] = moved
 
 
 def _free_low_columns(rng, score):
@@ -419,6 +506,14 @@ def simple_cases(src, tgt):
             out.append(variant([plain] * nch, via=dict(nsd="0A", write="file")))
     if src == "bms" and k0 <= BMS_LANES["BME"]:
         out.append(variant([plain] * nch, layout="BME", via=dict(read="default_layout")))
+    if src in ("osu", "qua"):
+        # a scroll-velocity point before the first tempo point and one on it (beat 0 at 0 ms and, second variant, at 500 ms)
+        out.append(variant([plain] * nch, svs=[["-3/2", 0.5], ["0", 2.0]]))
+        out.append(dict(variant([plain] * nch, svs=[["-1/48", 2.0]]), score=dict(t0=500, tempo=[[0, "120"], [1, "90"]], charts=[dict(keys=k0, objs=plain) for _ in range(nch)])))
+    if src == "bms":
+        # long notes ended by another id than ZZ while ZZ is an ordinary sample; no #LNOBJ at all (hits only); a BGM line first
+        out.append(variant([plain] * nch, lnobj="ZY", bgm=True))
+        out.append(variant([[[k0 - 1, "1", "0"], [0, "2", "0"]]] * nch, lnobj=None))
     if src == "osu":
         out.append(variant([plain] * nch, tps_shuffled=True))
     if src == "qua":
@@ -462,6 +557,15 @@ def build_osu(case):
         tps.append(dict(t=_t_out(sc.ms(b), False), bl=repr(60000.0 / float(v)), meter=rs.choice((4, 4, 4, 3, 5, 7)), ss=rs.randrange(4), si=0, vol=rs.choice((60, 100)), un=1, eff=rs.choice((0, 1))))
     if rs.random() < 0.5:  # a scroll-speed line: no tempo
         tps.append(dict(t=_t_out(sc.ms(Fraction(1)), False), bl=repr(-100.0 / rs.choice((0.5, 2.0, 1.25))), meter=4, ss=0, si=0, vol=100, un=0, eff=0))
+    for b, mult in case.get("svs") or ():  # scroll-speed lines anywhere, also before / on the first tempo point
+        tps.append(dict(t=_t_out(sc.ms(Fraction(b)), False), bl=repr(-100.0 / mult), meter=4, ss=0, si=0, vol=100, un=0, eff=0))
+    if case.get("svs") and not case.get("tps_shuffled"):
+        tps.sort(key=lambda x: x["t"])  # as the editor writes them: in time order (a tempo point before a scroll-speed line of its time)
+    if case.get("rich"):
+        for i, tp in enumerate(tps):
+            tp.update(ss=1 + i % 3, si=5 + i, vol=31 + i)
+    for i in range(case.get("early_samples") or 0):
+        spec["samples"].append(dict(t=_t_out(sc.ms(Fraction(-2 - i)), True), layer=i % 4, file=f"early {i}.wav", quoted=True, vol=40 + i))
     objs = []
     for c, b, ln in chart["objs"]:
         b, ln = Fraction(b), Fraction(ln)
@@ -470,6 +574,9 @@ def build_osu(case):
             o.update(end=_t_out(sc.ms(b + ln), case["int_ms"]), type=128)
         else:
             o["type"] = rs.choice((1, 5))
+        if case.get("rich"):
+            i = len(objs)
+            o.update(y=(37 * i + 11) % 385, hs=[(2, 4, 8, 6, 10, 12, 14)[i % 7], 1 + i % 3, 1 + (i + 1) % 3, 21 + i, 41 + i % 50, f"hs {i}.wav"])
         objs.append(o)
     if case.get("tps_shuffled"):
         rs.shuffle(tps)  # the [TimingPoints] lines in any file order (the dialect of C01 does not order them)
@@ -508,9 +615,12 @@ def build_qua(case):
             r.append(["EndTime", _t_out(sc.ms(b + ln), case["int_ms"])])
         if not sparse or rs.random() < 0.5:
             r.append(["KeySounds", []])
+        if case.get("rich"):
+            r += [["HitSound", ("Clap", "Whistle, Finish", "Normal")[len(recs) % 3]], ["EditorLayer", 1 + len(recs) % 3]]
         recs.append(r)
     tps = [[["StartTime", _t_out(sc.ms(b), False)], ["Bpm", float(v)]] for b, v in sc.tempo]
     svs = [[["StartTime", _t_out(sc.ms(Fraction(2)), False)], ["Multiplier", 0.5]]] if rs.random() < 0.5 else []
+    svs = [[["StartTime", _t_out(sc.ms(Fraction(b)), False)], ["Multiplier", mult]] for b, mult in case.get("svs") or ()] + svs
     if sparse:
         # Quaver itself leaves out a StartTime of 0; the keys of a record in any order
         for r in recs + tps + svs:
@@ -548,6 +658,12 @@ def build_sm(case):
             h[1] = rs.choice(_texts(case))
         elif h[0] in ("BANNER", "BACKGROUND", "LYRICSPATH", "CDTITLE", "MUSIC"):
             h[1] = rs.choice(("bn.png", "bg.jpg", "x-y_z.mp3", ""))
+    if case.get("rich"):
+        from contracts.C02_bounded import HEADER_ORDER
+
+        own = dict(DISPLAYBPM="165.5", BGCHANGES="0.000=bg.avi=1.000=1=0=0", FGCHANGES="4.000=fg.avi=1.000=0=0=1,8.000=fg2.png=1.000=1=1=0", SAMPLESTART="12.345", SAMPLELENGTH="6.789", SELECTABLE="NO")
+        old = dict((h[0], h[1]) for h in header)
+        header = [[t, old[t] if t in ("OFFSET", "BPMS", "STOPS") else own.get(t, f"{t.lower()} {i}" + (".png" if t in ("BANNER", "BACKGROUND", "CDTITLE") else ""))] for i, t in enumerate(HEADER_ORDER)]
     charts = []
     for ch in score["charts"]:
         cells = _measures_of(ch, "123")
@@ -556,13 +672,15 @@ def build_sm(case):
             R = 4
             for p in cells.get(m, {}):
                 R = _lcm(R, p.denominator)
-            R = next(r for r in (4, 8, 12, 16, 24, 48, 192) if r % R == 0)
+            R = next((r for r in (4, 8, 12, 16, 24, 48, 192) if r % R == 0), R)
             rows = [["0"] * ch["keys"] for _ in range(R)]
             for p, by_col in cells.get(m, {}).items():
                 for c, s in by_col.items():
                     rows[int(p * R)][c] = s
             measures.append(["".join(r) for r in rows])
         charts.append(dict(type=SM_TYPE[ch["keys"]], desc=rs.choice(("", "Evening", "a b")), diff=rs.choice(("Easy", "Hard", "Challenge")), meter=rs.randrange(1, 20), radar="0,0,0,0,0", measures=measures))
+        if case.get("rich"):
+            charts[-1].update(desc=f"desc {len(charts)}", meter=20 + len(charts), radar="0.125,0.25,0.5,0.75,0.875")
     bpms = [(dec_str(Fraction(4 * m)) + rs.choice(("", ".0", ".000")), v) for m, v in score["tempo"]]
     style = dict(seed=rs.randrange(1 << 30), comments=rs.choice(("none", "plain")), blank=rs.random() < 0.5, bpm_newlines=rs.random() < 0.5, measure_comments=rs.random() < 0.4)
     return sm_render(dict(header=header, bpms=bpms, charts=charts, style=style))
@@ -574,6 +692,9 @@ def bms_case_of(case):
     score, chart = case["score"], case["score"]["charts"][0]
     lanes = {col: ch.decode() for ch, col in note_lanes(layout_of(case["layout"])).items()}
     wav = {"01": "kick_0.wav", "0A": "snare 02_1.ogg", "1Z": "hat_2.wav"}
+    lnobj = case["lnobj"] if "lnobj" in case else "ZZ"
+    if lnobj != "ZZ":
+        wav["ZZ"] = "zz_3.wav"  # without `#LNOBJ ZZ` the id ZZ is a sample like any other
     exbpm, lines = {}, []
     for i, (m, v) in enumerate(score["tempo"][1:], 1):
         if Fraction(v).denominator == 1 and int(v) <= 255 and rs.random() < 0.5:
@@ -581,7 +702,8 @@ def bms_case_of(case):
         else:
             exbpm["%02d" % i] = v
             lines.append(dict(m=m, ch="08", d=1, slots={"0": "%02d" % i}))
-    cells = _measures_of(chart, ("N", "N", "ZZ"))
+    cells = _measures_of(chart, ("N", "N", "<tail>"))
+    assert lnobj is not None or not any("<tail>" in by_col.values() for by_pos in cells.values() for by_col in by_pos.values()), "holds need an #LNOBJ"
     for m in sorted(cells):
         per_col = {}
         for p, by_col in cells[m].items():
@@ -591,11 +713,19 @@ def bms_case_of(case):
             d = 1
             for p in per_col[c]:
                 d = _lcm(d, p.denominator)
-            slots = {str(int(p * d)): (s if s == "ZZ" else rs.choice(sorted(wav))) for p, s in sorted(per_col[c].items())}
+            slots = {str(int(p * d)): (lnobj if s == "<tail>" else rs.choice(sorted(wav))) for p, s in sorted(per_col[c].items())}
             lines.append(dict(m=m, ch=lanes[c], d=d, slots=slots))
+    if case.get("bgm"):
+        # 17: the first data line of the file / the first object in time is a BGM sample (channel 01: no visible note), not a
+        # note or a tempo change; another one two measures after the last line
+        lines.insert(0, dict(m=0, ch="01", d=4, slots={"0": "01", "3": "0A"}))
+        lines.append(dict(m=max(l["m"] for l in lines) + 2, ch="01", d=1, slots={"0": "1Z"}))
     lines.sort(key=lambda l: l["m"])  # stable: file order = time order in every lane (one line per measure and lane)
     header = dict(TITLE=rs.choice(_texts(case)), ARTIST=rs.choice(_texts(case)), PLAYLEVEL=str(rs.randrange(1, 13)), BPM=score["tempo"][0][1])
-    return dict(layout=case["layout"], header=header, others=dict(rs.sample([("PLAYER", "1"), ("TOTAL", "300"), ("RANK", "3")], rs.randrange(0, 3))), lnobj="ZZ", wav=wav, exbpm=exbpm, lines=lines, decor=rs.random() < 0.5)
+    others = dict(rs.sample([("PLAYER", "1"), ("TOTAL", "300"), ("RANK", "3")], rs.randrange(0, 3)))
+    if case.get("rich"):
+        others.update(TOTAL="345", RANK="1", GENRE="genre g", SUBTITLE="sub s", SUBARTIST="obj o", STAGEFILE="stage 1.png", BANNER="banner 2.png", DIFFICULTY="4")
+    return dict(layout=case["layout"], header=header, others=others, lnobj=lnobj, wav=wav, exbpm=exbpm, lines=lines, decor=rs.random() < 0.5)
 
 
 def build_bms(case):
@@ -1243,7 +1373,20 @@ def run_case(case):
             fails.append((f"{pair}.valid", tag + "; ".join(bad)[:600]))
         if got is not None:
             fails += [(f"{pair}.{a}", tag + d) for a, d in compare_with_offset_family(case, w, got)]
-    return _by_family(case, pair, fails)
+    return _by_family(case, pair, _by_early_sv(case, pair, fails))
+
+
+def _by_early_sv(case, pair, fails):
+    """ONE id for one root cause: a file with a scroll-velocity point BEFORE its first tempo point whose written timeline is
+    moved by one constant (start_offset), while the same file without those points has no start_offset failure, reports
+    `<Src>To<Tgt>.sv_before_first_tempo_point` instead (beat 0 of the target was taken from the earliest object of any kind)."""
+    early = [x for x in case.get("svs") or () if Fraction(x[0]) < 0]
+    if not early or f"{pair}.start_offset" not in {w for w, _ in fails}:
+        return fails
+    twin = dict(case, svs=[x for x in case["svs"] if Fraction(x[0]) >= 0])
+    if f"{pair}.start_offset" in {w for w, _ in run_case(twin)}:
+        return fails
+    return [(f"{pair}.sv_before_first_tempo_point", f"scroll-velocity point(s) at beat {[x[0] for x in early]} before the first tempo point; without them the same file has no start_offset failure.  " + d) if w == f"{pair}.start_offset" else (w, d) for w, d in fails]
 
 
 def _top_column_unused(case):
@@ -1313,6 +1456,10 @@ def _drive(rep, src, n_quick, n_thorough):
         "15% write the SAME converted chart 1-2 further times (write <-> write_file alternating, write_file onto the previous output), every output compared; 8% send another small file of the source format through read -> convert -> write first; "
         "8% call - change - call again: convert + write, then the same read object changed through the list properties or the stack (osu / Quaver / .sm sources: every time moved by 250 / 1000 / -125 / 3 ms; every source: the objects of the highest and the lowest used column exchanged), then convert + write again, compared with the source's denotation changed in the same way; "
         f"10% of the scores draw half of their tempo values from {list(BPM_EDGE)} (255 = the top of BMS channel 03); 15% of the OsuToBMS / QuaToBMS / O2JToBMS cases pass a NEGATIVE move_right_by (-1 / -2) on a file whose lowest columns were emptied. "
+        f"RELATIVE ORDER OF LIST KINDS / ALL FIELDS / SPECIAL VALUES / OTHER GRIDS (each a function of the case): 35% of the osu / Quaver files carry 1-3 further scroll-velocity points, the first of them BEFORE the first tempo point (-3/2, -1/48, -16, -5/4 beat) or ON it, others on the last tempo change / 3 beats after the last object (osu: lines in time order unless shuffled; 40% of these osu files with 1-2 storyboard samples before the first tempo point); "
+        "20% `rich`: every column of every record non-default and different from its siblings (osu y / hit sound / hit-sample numbers / file name per object, sample set / index / volume per timing point; Quaver HitSound + EditorLayer per record; .sm every header tag with a text of its own incl. #BGCHANGES / #FGCHANGES / #DISPLAYBPM / SELECTABLE NO, chart description / meter / radar; BMS #GENRE #SUBTITLE #SUBARTIST #STAGEFILE #BANNER #DIFFICULTY #TOTAL #RANK); "
+        "30% of the BMS files: no #LNOBJ header at all (files without holds) or #LNOBJ ZY / 02 / AA, with id ZZ an ordinary sample of some hits; 30% of the BMS files start with a BGM sample line (channel 01) on the first measure line and end with one two measures after the last line; "
+        f"20%: 60% of the objects moved to whole beat + k/q, q from {list(FINE_Q)}, where their column's neighbours leave room (.sm sources only when every measure fits 192 rows). "
         "Kept away from (known limitations): ';' and '//' in metadata text (the .sm writer emits them unescaped: stray text after the tag / the tag's own ';' and the next tag commented out), zero-length holds and two tempo points at one time (a .sm / BMS file cannot say them), tempo changes off measure lines (.sm #BPMS beats have two decimals; reseating of changes < 0.001 measure apart), BMS lines out of time order, objects before the first tempo point, stops, measure-length changes, SM mines / rolls / lifts / fakes"
     )
     rep.rule = "a case is one source file + one target game + the way the three calls are made (real read -> real convert -> real write -> target oracle vs source oracle); non-trivial when the score has a tempo change and a hold; every source file is first parsed by its own oracle and compared with the score it was made from (self-check)"
@@ -1341,8 +1488,13 @@ def _drive(rep, src, n_quick, n_thorough):
             for k_, v_ in (case.get("via") or {}).items():
                 key = f"via_{k_}_{v_}" if k_ in ("read", "pre") else f"via_{k_}"
                 classes[key] = classes.get(key, 0) + 1
-            for k_ in ("tps_shuffled", "sparse", "text"):
+            for k_ in ("tps_shuffled", "sparse", "text", "svs", "early_samples", "rich", "fine", "bgm"):
                 classes[k_] = classes.get(k_, 0) + bool(case.get(k_))
+            if case.get("svs"):
+                classes["sv_before_first_tempo_point"] = classes.get("sv_before_first_tempo_point", 0) + any(Fraction(b) < 0 for b, _ in case["svs"])
+                classes["sv_on_first_tempo_point"] = classes.get("sv_on_first_tempo_point", 0) + any(Fraction(b) == 0 for b, _ in case["svs"])
+            if "lnobj" in case:
+                classes[f"lnobj_{case['lnobj']}"] = classes.get(f"lnobj_{case['lnobj']}", 0) + 1
             if case.get("move_right_by") is not None:
                 classes[f"move_right_by_{case['move_right_by']}"] = classes.get(f"move_right_by_{case['move_right_by']}", 0) + 1
             for what, d in run_case(case):
